@@ -62,6 +62,7 @@ bool is_rational(Real t, mpq_class* out) { if (out) *out = mpq_class(t); return 
 bool mentions_symbols(Real) { return false; }
 std::string show(Real t) { std::ostringstream o; o.precision(17); o << t; return o.str(); }
 f64 numeric(Real t) { return t; }
+f64 numeric0(Real t) { return t; }
 void magic_reset() {}
 
 int run_main(int argc, char** argv, const char* harness_name, CaseGen gen) {
